@@ -16,7 +16,7 @@ VARIABLES l
 vars == <<l>>
 
 LMax     == 20                                   \* table derived for 0 <= m <= l <= LMax
-LExact   == IF Tier = "quick" THEN 4 ELSE 6       \* exact rational Unsold identity
+LExact   == IF Tier = "quick" THEN 4 ELSE 5       \* exact rational Unsold identity (l = 6 overflows 32-bit rationals)
 LW3j     == 12                                   \* 3-j symbols (l l l; m1 m2 m3) for l <= 12 (primes <= 37)
 LW3jOrth == IF Tier = "quick" THEN 6 ELSE 12     \* orthogonality modulo p checked up to here
 
